@@ -75,14 +75,18 @@ type world struct {
 	running   bool
 	restarts  int
 
-	issuedAddrs []issued
-	byAddr      map[string]int
-	foreignN    uint64
-	acctKeys    map[string]*hdkeychain.ExtendedKey // scope/account/branch -> branch xpub-capable key
-	violated    bool
-	pendingFail map[string]int
-	derivedIdx  map[string]map[string]uint32
-	derivedN    map[string]uint32
+	issuedAddrs        []issued
+	byAddr             map[string]int
+	foreignN           uint64
+	acctKeys           map[string]*hdkeychain.ExtendedKey // scope/account/branch -> branch xpub-capable key
+	violated           bool
+	pendingFail        map[string]int
+	built              []*wire.MsgTx
+	pendingResend      []string
+	unminedAtStart     map[chainhash.Hash]bool
+	resendSyncedHeight int32
+	derivedIdx         map[string]map[string]uint32
+	derivedN           map[string]uint32
 	// transactions the harness knows pay the wallet or were authored by it
 	funding []*wire.MsgTx
 	sent    []*wire.MsgTx
@@ -100,7 +104,7 @@ func newWorld(env *core.Env, p *core.Plan) (*world, error) {
 	x := &world{env: env, p: p, prop: p.Prop, byAddr: map[string]int{}, acctKeys: map[string]*hdkeychain.ExtendedKey{}}
 	r := core.NewRand(core.Mix(p.Seed, 0x77a11e7))
 	txauthor.VerifSeedCPRNG(int64(core.Mix(p.Seed, 0xc9) >> 1)) // overlay probe: change position is a function of the plan
-	simrt.SetMapSeed(core.Mix(p.Seed, 0x3a9) | 1)                  // map iteration order inside btcwallet is a function of the plan
+	simrt.SetMapSeed(core.Mix(p.Seed, 0x3a9) | 1)               // map iteration order inside btcwallet is a function of the plan
 	x.seed = r.Bytes(32)
 	x.pubPass = []byte("public")
 	x.privPass = []byte("private-" + fmt.Sprint(p.Seed%1000))
@@ -155,6 +159,15 @@ func (x *world) open() error {
 		x.env.Count("probe.sync-after-backend-failure")
 	}
 	x.pendingFail = nil
+	for _, a := range x.pendingResend {
+		if a != "" && a != "notify-received-fails" {
+			x.client.SendAnswers = append(x.client.SendAnswers, a)
+			x.env.Count("fault.backend-answer.resend." + a)
+		} else {
+			x.client.SendAnswers = append(x.client.SendAnswers, "")
+		}
+	}
+	x.pendingResend = nil
 	if err := x.client.Start(); err != nil {
 		return err
 	}
